@@ -1,6 +1,7 @@
 use std::mem;
 
 use bytes::{Buf as _, BufMut, BytesMut};
+use tokio::io::{AsyncRead, AsyncReadExt};
 
 use super::{ThriftException, new_protocol_exception};
 
@@ -492,4 +493,20 @@ where
     fn read_f64_le(&mut self) -> Result<f64, IOError> {
         Ok(f64::from_bits(Self::read_u64_le(self)?))
     }
+}
+
+/// Reads exactly `len` bytes from `reader`.
+///
+/// The buffer grows with the data that actually arrives instead of being
+/// allocated up front from a length prefix the peer controls.
+pub(crate) async fn read_exact_to_vec<R>(reader: &mut R, len: usize) -> std::io::Result<Vec<u8>>
+where
+    R: AsyncRead + Unpin,
+{
+    let mut v = Vec::with_capacity(len.min(4096));
+    let n = reader.take(len as u64).read_to_end(&mut v).await?;
+    if n != len {
+        return Err(std::io::ErrorKind::UnexpectedEof.into());
+    }
+    Ok(v)
 }
